@@ -35,11 +35,14 @@ Ltac unfold_phys :=
   cbv [drawn_of brel_of drawn_RC brel_RC Yeff drawn_L brel_L drawn_V brel_V drawn_AM brel_AM drawn_I brel_I
        drawn_VCVS brel_VCVS Ac drawn_VCCS brel_VCCS drawn_CCCS brel_CCCS drawn_CCVS brel_CCVS
        drawn_K brel_K ZM drawn_TF brel_TF drawn_GY brel_GY drawn_TPA brel_TPA tpA
-       drawn_TPY brel_TPY drawn_TR brel_TR drawn_SP brel_SP drawn_RV brel_RV dV01 dV23 thru vv
-       vadd vscal vzero linpart].
+       drawn_TPY brel_TPY drawn_TR brel_TR drawn_SP brel_SP drawn_RV brel_RV dV01 dV23 thru linpart].
+Lemma vv_zero n : vv (@vzero K) n = f0.
+Proof. unfold vv, vzero. destruct (0 <=? n); reflexivity. Qed.
+(* potentials are read through [vv], which is additive: no case analysis on which nodes are grounded *)
+Ltac vec_norm := rewrite ?(vv_add K), ?(vv_scal K), ?vv_zero; unfold vadd, vscal, vzero.
 Ltac split_ifs :=
   repeat match goal with |- context [if ?b then _ else _] => destruct b end.
-Ltac aff_solve := unfold_phys; split_ifs; rewrite ?(Fdiv_def (fth K)); ring.
+Ltac aff_solve := unfold_phys; vec_norm; split_ifs; rewrite ?(Fdiv_def (fth K)); ring.
 
 Lemma drawn_affine cl (c : sctx K) : affine (drawn_of cl c).
 Proof. intros v1 ib1 v2 ib2 a r. destruct cl; aff_solve. Qed.
@@ -70,11 +73,11 @@ Proof. induction N as [|e N IH]; intros v1 ib1 v2 ib2 a r.
 Lemma drawn_zero cl (c : sctx K) v ib r : drawn_of cl (zero_ctx c) v ib r = linpart (drawn_of cl c) v ib r.
 Proof. destruct cl; unfold zero_ctx, zero_par; cbn [kind typ p0 p1 p2 p3 c0 c1 bown bextra bctrl bL1 bL2 has_ic ctrl_is_vsrc has_arg1 tp_has_src par];
   unfold_phys; cbn [kind typ p0 p1 p2 p3 c0 c1 bown bextra bctrl bL1 bL2 has_ic ctrl_is_vsrc has_arg1 tp_has_src par];
-  split_ifs; rewrite ?(Fdiv_def (fth K)); ring. Qed.
+  vec_norm; split_ifs; rewrite ?(Fdiv_def (fth K)); ring. Qed.
 Lemma brel_zero cl (c : sctx K) v ib q : brel_of cl (zero_ctx c) v ib q = linpart (brel_of cl c) v ib q.
 Proof. destruct cl; unfold zero_ctx, zero_par; cbn [kind typ p0 p1 p2 p3 c0 c1 bown bextra bctrl bL1 bL2 has_ic ctrl_is_vsrc has_arg1 tp_has_src par];
   unfold_phys; cbn [kind typ p0 p1 p2 p3 c0 c1 bown bextra bctrl bL1 bL2 has_ic ctrl_is_vsrc has_arg1 tp_has_src par];
-  split_ifs; rewrite ?(Fdiv_def (fth K)); ring. Qed.
+  vec_norm; split_ifs; rewrite ?(Fdiv_def (fth K)); ring. Qed.
 Theorem kcl_killnet (N : netlist) v ib r : kcl (killnet N) v ib r = linpart (kcl N) v ib r.
 Proof. induction N as [|e N IH].
   - unfold linpart, kcl; cbn [killnet map sumK]. ring.
@@ -375,8 +378,7 @@ Lemma vv_shift (c : K) v n : 0 <= n -> vv (vshift c v) n = fadd (vv v n) c.
 Proof. intros H. unfold vv, vshift. destruct (Z.leb_spec 0 n); [reflexivity | lia]. Qed.
 Ltac shift_solve :=
   unfold_phys; cbn [kind typ p0 p1 p2 p3 c0 c1 bown bextra bctrl bL1 bL2 has_ic ctrl_is_vsrc has_arg1 tp_has_src par];
-  unfold vshift;
-  repeat match goal with H : 0 <= ?n |- context [0 <=? ?n] => rewrite (proj2 (Z.leb_le 0 n) H) end;
+  rewrite ?vv_shift by assumption;
   split_ifs; rewrite ?(Fdiv_def (fth K)); ring.
 Lemma drawn_shift e : floating1 e -> forall v ib (c : K) r, drawn_of (fst e) (snd e) (vshift c v) ib r = drawn_of (fst e) (snd e) v ib r.
 Proof.
